@@ -57,23 +57,44 @@ pub(crate) struct SqPackHeader {
     sha1_hash: [u8; 20],
 }
 
+/// Reads exactly `length` bytes. The allocation grows with what is actually read, so a damaged length field
+/// cannot ask for more memory than the file holds.
+fn read_exact_vec<T: Read>(buf: &mut T, length: usize) -> Option<Vec<u8>> {
+    let mut data = Vec::new();
+    buf.by_ref()
+        .take(length as u64)
+        .read_to_end(&mut data)
+        .ok()?;
+    (data.len() == length).then_some(data)
+}
+
+/// Allocates the output buffer for a deflated block, unless the block header claims more output than a
+/// deflate stream of `compressed_length` bytes can produce (the format's limit is a ratio of 1032:1).
+fn inflate_buffer(compressed_length: usize, decompressed_length: i32) -> Option<Vec<u8>> {
+    let decompressed_length = usize::try_from(decompressed_length).ok()?;
+    if decompressed_length > compressed_length.saturating_mul(1032).saturating_add(1032) {
+        return None;
+    }
+    Some(vec![0; decompressed_length])
+}
+
 pub(crate) fn read_data_block<T: Read + Seek>(
     mut buf: T,
     starting_position: u64,
 ) -> Option<Vec<u8>> {
     buf.seek(SeekFrom::Start(starting_position)).ok()?;
 
-    let block_header = BlockHeader::read(&mut buf).unwrap();
+    let block_header = BlockHeader::read(&mut buf).ok()?;
 
     match block_header.compression {
         CompressionMode::Compressed {
             compressed_length,
             decompressed_length,
         } => {
-            let mut compressed_data: Vec<u8> = vec![0; compressed_length as usize];
-            buf.read_exact(&mut compressed_data).ok()?;
+            let compressed_length = usize::try_from(compressed_length).ok()?;
+            let mut compressed_data = read_exact_vec(&mut buf, compressed_length)?;
 
-            let mut decompressed_data: Vec<u8> = vec![0; decompressed_length as usize];
+            let mut decompressed_data = inflate_buffer(compressed_length, decompressed_length)?;
             if !no_header_decompress(&mut compressed_data, &mut decompressed_data) {
                 return None;
             }
@@ -81,30 +102,27 @@ pub(crate) fn read_data_block<T: Read + Seek>(
             Some(decompressed_data)
         }
         CompressionMode::Uncompressed { file_size } => {
-            let mut local_data: Vec<u8> = vec![0; file_size as usize];
-            buf.read_exact(&mut local_data).ok()?;
-
-            Some(local_data)
+            read_exact_vec(&mut buf, usize::try_from(file_size).ok()?)
         }
     }
 }
 
 /// A fixed version of read_data_block accounting for differing compressed block sizes in ZiPatch files.
 pub(crate) fn read_data_block_patch<T: Read + Seek>(mut buf: T) -> Option<Vec<u8>> {
-    let block_header = BlockHeader::read(&mut buf).unwrap();
+    let block_header = BlockHeader::read(&mut buf).ok()?;
 
     match block_header.compression {
         CompressionMode::Compressed {
             compressed_length,
             decompressed_length,
         } => {
-            let compressed_length: usize =
-                ((compressed_length as usize + 143) & 0xFFFFFF80) - (block_header.size as usize);
+            let compressed_length: usize = ((usize::try_from(compressed_length).ok()? + 143)
+                & 0xFFFFFF80)
+                .checked_sub(block_header.size as usize)?;
 
-            let mut compressed_data: Vec<u8> = vec![0; compressed_length];
-            buf.read_exact(&mut compressed_data).ok()?;
+            let mut compressed_data = read_exact_vec(&mut buf, compressed_length)?;
 
-            let mut decompressed_data: Vec<u8> = vec![0; decompressed_length as usize];
+            let mut decompressed_data = inflate_buffer(compressed_length, decompressed_length)?;
             if !no_header_decompress(&mut compressed_data, &mut decompressed_data) {
                 return None;
             }
@@ -112,13 +130,15 @@ pub(crate) fn read_data_block_patch<T: Read + Seek>(mut buf: T) -> Option<Vec<u8
             Some(decompressed_data)
         }
         CompressionMode::Uncompressed { file_size } => {
-            let new_file_size: usize = (file_size as usize + 143) & 0xFFFFFF80;
+            let file_size = usize::try_from(file_size).ok()?;
+            let new_file_size: usize = (file_size + 143) & 0xFFFFFF80;
 
-            let mut local_data: Vec<u8> = vec![0; file_size as usize];
-            buf.read_exact(&mut local_data).ok()?;
+            let local_data = read_exact_vec(&mut buf, file_size)?;
 
             buf.seek(SeekFrom::Current(
-                (new_file_size - block_header.size as usize - file_size as usize) as i64,
+                new_file_size
+                    .checked_sub(block_header.size as usize)?
+                    .checked_sub(file_size)? as i64,
             ))
             .ok()?;
 
